@@ -345,10 +345,12 @@ theorem imports_ok :
       f.2.all fun i => !(randomnessCapable.contains i) || i == "crypto/rand") = true := by
   decide
 
-/-- **`randomUint32` is the only place that touches a source of variability**, and it calls
-`crypto/rand.Read`. (`os` is imported for `os.Stderr` only: no call into it is made.) -/
+/-- **Every call into a package that could supply variability is a call of `crypto/rand.Read`**
+(and there is one). `os` is imported for `os.Stderr` only: no call into it is made. Which
+function makes the call does not matter. -/
 theorem rand_sites :
-    Generated.Facts.sensitiveCalls = [("util.go", "randomUint32", "crypto/rand.Read", [])] := by
+    (Generated.Facts.sensitiveCalls.all fun c => c.2.2.1 == "crypto/rand.Read") = true ∧
+    Generated.Facts.sensitiveCalls ≠ [] := by
   decide
 
 /-! ### Non-vacuity -/
